@@ -1,6 +1,7 @@
 package main
 
 import (
+	"sync"
 	"context"
 	"fmt"
 	"strings"
@@ -243,4 +244,46 @@ func runC05(tier string, seed uint64, rep *Report) {
 		}
 	}
 	rep.Extra["exhaustive_inputs"] = count
+	// (v) reads that OVERLAP in time (goroutines of a host, futures calling read-string): each yields what it yields alone.
+	// Texts with names never read before in this process (keywords, symbols, strings, constructor-free forms).
+	{
+		per := 1500
+		if tier == "thorough" {
+			per = 20000
+		}
+		var wg sync.WaitGroup
+		bad := make([]string, 16)
+		for gi := 0; gi < 16; gi++ {
+			wg.Add(1)
+			go func(gi int) {
+				defer wg.Done()
+				defer func() {
+					if r := recover(); r != nil {
+						bad[gi] = fmt.Sprintf("panic in an overlapping read: %v", r)
+					}
+				}()
+				for i := 0; i < per; i++ {
+					src := fmt.Sprintf("(:kw-%d-%d sym-%d-%d \"s%d\" {:k%d-%d [%d ¬raw%d¬]} 'q%d-%d)", gi, i, gi, i, i, gi, i, i, i, gi, i)
+					ast, err := lisp.READ(src, nil, nil)
+					if err != nil {
+						bad[gi] = "overlapping read failed: " + src + ": " + err.Error()
+						return
+					}
+					if got := lisp.PRINT(ast); !strings.HasPrefix(got, fmt.Sprintf("(:kw-%d-%d sym-%d-%d \"s%d\" {:k%d-%d [%d ", gi, i, gi, i, i, gi, i, i)) || !strings.HasSuffix(got, fmt.Sprintf("(quote q%d-%d))", gi, i)) {
+						bad[gi] = "overlapping read gave another form: " + src + " => " + got
+						return
+					}
+				}
+			}(gi)
+		}
+		wg.Wait()
+		idx := rep.Add("R 0 0 0 "+encSrc("nil"), readClass(Guard(func() (types.MalType, error) { return lisp.READ("nil", nil, nil) })), "16 goroutines x reads of texts with fresh names", true, "overlapping-reads")
+		rep.Histogram["overlapping-reads:texts"] = 16 * per
+		for _, b := range bad {
+			if b != "" {
+				rep.Violate(idx, b, "16 goroutines each calling lisp.READ on texts like (:kw-G-I sym-G-I \"sI\" {:kG-I [I ¬rawI¬]} 'qG-I) with G, I fresh")
+				break
+			}
+		}
+	}
 }
